@@ -151,3 +151,104 @@ pub mod with_alloc {
         core::mem::forget(y);
     }
 }
+
+// ---- nested re-framing: indefinite containers inside an indefinite sequence ------------------
+use crate::c17::{MapV, U8Seed};
+use core::fmt;
+use serde::de::{self, DeserializeSeed, SeqAccess, Visitor};
+
+/// Outer sequence visitor collecting up to 3 elements produced by a seed.
+struct Outer<S>(S);
+impl<'de, S: DeserializeSeed<'de> + Copy> Visitor<'de> for Outer<S> where S::Value: Copy + Default {
+    type Value = ([S::Value; 3], usize);
+    fn expecting(&self, f: &mut fmt::Formatter) -> fmt::Result { f.write_str("outer seq") }
+    fn visit_seq<A: SeqAccess<'de>>(self, mut a: A) -> Result<Self::Value, A::Error> {
+        let mut out = [S::Value::default(); 3];
+        let mut n = 0;
+        let mut i = 0;
+        while i < 4 {
+            match a.next_element_seed(self.0)? { Some(x) => { if n < 3 { out[n] = x; } n += 1 } None => return Ok((out, n)) }
+            i += 1;
+        }
+        Err(de::Error::custom("too many"))
+    }
+}
+#[derive(Clone, Copy)]
+struct ArrSeed;
+impl<'de> DeserializeSeed<'de> for ArrSeed {
+    type Value = [u8; 2];
+    fn deserialize<D: de::Deserializer<'de>>(self, d: D) -> Result<[u8; 2], D::Error> { <[u8; 2]>::deserialize(d) }
+}
+#[derive(Clone, Copy)]
+struct MapSeed;
+impl<'de> DeserializeSeed<'de> for MapSeed {
+    type Value = (u8, u8, usize);
+    fn deserialize<D: de::Deserializer<'de>>(self, d: D) -> Result<(u8, u8, usize), D::Error> {
+        d.deserialize_map(MapV).map(|(o, n)| (o[0].0, o[0].1, n))
+    }
+}
+
+/// `9f 9f a b ff 9f c d ff ff` as a sequence of `[u8; 2]`: whenever both sides succeed they
+/// deliver the same elements (a tuple decoder that leaves the inner break unread makes the
+/// bridge stop after one element).
+#[kani::proof]
+#[kani::unwind(8)]
+#[kani::stub(minicbor::decode::Decoder::skip, crate::util::skip_r3_small)]
+pub fn c18_cross_seq_of_arrays_indefinite() {
+    let a: [u8; 4] = kani::any();
+    let inp = [0x9f, 0x9f, 0x18, a[0], 0x18, a[1], 0xff, 0x9f, 0x18, a[2], 0x18, a[3], 0xff, 0xff, 0x05];
+    // native
+    let mut d = Decoder::new(&inp[..]);
+    let mut nat = [[0u8; 2]; 3];
+    let mut nn = 0;
+    let mut nat_ok = true;
+    match d.array_iter::<[u8; 2]>() {
+        Ok(it) => for x in it { match x { Ok(v) => { if nn < 3 { nat[nn] = v; } nn += 1 } Err(_) => { nat_ok = false; break } } if nn > 3 { break } },
+        Err(_) => nat_ok = false,
+    }
+    // serde
+    let mut s = Deserializer::new(&inp[..]);
+    let r = serde::Deserializer::deserialize_seq(&mut s, Outer(ArrSeed));
+    if let (true, Ok((ser, sn))) = (nat_ok, &r) {
+        assert!(*sn == nn, "native and serde decoding disagree on the number of elements");
+        let mut i = 0;
+        while i < 3 { if i < nn { assert!(ser[i] == nat[i], "native and serde decoding disagree on an element"); } i += 1; }
+        assert!(d.position() == s.decoder().position());
+    }
+    kani::cover!(nat_ok && nn == 2);
+}
+
+/// `9f bf k v ff bf k v ff ff`: a sequence of indefinite maps, native `map_iter_with` vs the bridge.
+#[kani::proof]
+#[kani::unwind(8)]
+#[kani::stub(minicbor::decode::Decoder::skip, crate::util::skip_r3_small)]
+pub fn c18_cross_seq_of_maps_indefinite() {
+    let a: [u8; 4] = kani::any();
+    let inp = [0x9f, 0xbf, 0x18, a[0], 0x18, a[1], 0xff, 0xbf, 0x18, a[2], 0x18, a[3], 0xff, 0xff, 0x05];
+    // native: outer indefinite array by hand, inner maps through map_iter_with
+    let mut d = Decoder::new(&inp[..]);
+    let mut nat = [(0u8, 0u8, 0usize); 3];
+    let mut nn = 0;
+    let mut nat_ok = matches!(d.array(), Ok(None));
+    let mut guard = 0;
+    while nat_ok && guard < 4 {
+        guard += 1;
+        match d.datatype() { Ok(minicbor::data::Type::Break) => { let _ = d.skip(); break } Ok(_) => {} Err(_) => { nat_ok = false; break } }
+        let mut ctx = ();
+        let mut e = (0u8, 0u8, 0usize);
+        match d.map_iter_with::<(), u8, u8>(&mut ctx) {
+            Ok(it) => for x in it { match x { Ok((k, v)) => { if e.2 == 0 { e.0 = k; e.1 = v; } e.2 += 1 } Err(_) => { nat_ok = false; break } } if e.2 > 2 { break } },
+            Err(_) => nat_ok = false,
+        }
+        if nn < 3 { nat[nn] = e; }
+        nn += 1;
+    }
+    let mut s = Deserializer::new(&inp[..]);
+    let r = serde::Deserializer::deserialize_seq(&mut s, Outer(MapSeed));
+    if let (true, Ok((ser, sn))) = (nat_ok, &r) {
+        assert!(*sn == nn, "native and serde decoding disagree on the number of maps");
+        let mut i = 0;
+        while i < 3 { if i < nn { assert!(ser[i] == nat[i], "native and serde decoding disagree on a map"); } i += 1; }
+    }
+    kani::cover!(nat_ok && nn == 2);
+}
